@@ -394,7 +394,7 @@ pub struct IGrammar {
     pub undefined: Vec<String>,
 }
 
-#[derive(Clone, Debug, PartialEq, Eq, Hash)]
+#[derive(Clone, Debug, PartialEq, Eq, Hash, PartialOrd, Ord)]
 pub enum IFactor {
     T(usize),
     N(usize),
